@@ -161,7 +161,10 @@ class traj_xyz(FnContract):
     props = ["C20"]
 
     def cases(self):
-        return [{"stamps": True, "start": False}, {"stamps": True, "start": True}, {"stamps": False, "start": False}]
+        # the last configuration (no timestamps, but a start time given) was added after seed C20-c: the pose index is
+        # not shifted by the start time
+        return [{"stamps": True, "start": False}, {"stamps": True, "start": True}, {"stamps": False, "start": False},
+                {"stamps": False, "start": True}]
 
     def args(self, c, stamps=True, start=False):
         _plot_module()
